@@ -10,7 +10,7 @@
 (* defective variants (Variant # "ok") must be rejected by TLC.               *)
 EXTENDS NatInt, TLC
 CONSTANT CMax
-CONSTANT Variant      \* "ok" | "trunc_first" (F2) | "halfdown_tie" | "cmp_sign" | "rem_loop" | "div_no_norm" | "gcd_twos"
+CONSTANT Variant      \* "ok" | "trunc_first" (F2) | "halfdown_tie" | "cmp_sign" | "rem_loop" | "div_no_norm" | "gcd_twos" | "far_zero"
 S == INSTANCE FpDec WITH ZAdd <- IAdd, ZSub <- ISub, ZMul <- IMul, ZCmp <- ICmp, ZFloorDivMod <- IFloorDivMod, ZLit <- ILit,
        ZNeg <- INeg, ZAbs <- IAbs, ZSign <- ISign, ZIsEven <- IIsEven, ZMod5Is0 <- IMod5Is0, ZPow10 <- IPow10, ZPow2 <- IPow2,
        ZDigits <- IDigits, MaxFrac <- 2, CoeffBits <- 7, CoeffMax <- 127, CoeffMin <- -128, MaxDigits <- 3
@@ -98,11 +98,16 @@ ImplMul(mode) ==
 MulRefines == ~Ready \/ \A mode \in S!Modes : S!MulDecOk(X, Y, mode, ImplMul(mode))
 
 (* ---- round ---- *)
+\* round.rs: no-op, the "far" branch (shift beyond the digits of any coefficient: 38 in the crate, 2 here), the regular branch
 ImplRound(n, mode) ==
   IF n >= xf THEN S!Ret(xc, xf)
+  ELSE IF n < xf - 2
+  THEN LET unit == IF Variant = "far_zero" THEN 0 ELSE DivRoundedKernel(Sgn(xc), 10, mode) IN
+       IF unit = 0 THEN S!Ret(0, 0) ELSE IF 0 - n > 2 THEN S!Fail
+       ELSE IF In8(unit * 10^(0 - n)) THEN S!Ret(unit * 10^(0 - n), 0) ELSE S!Fail
   ELSE LET q == DivRoundedKernel(xc, 10^(xf - n), mode) IN
        IF n >= 0 THEN S!Ret(q, n) ELSE IF In8(q * 10^(0 - n)) THEN S!Ret(q * 10^(0 - n), 0) ELSE S!Fail
-RoundRefines == ~Ready \/ \A n \in -3..3, mode \in S!Modes : S!RoundOk(X, n, mode, ImplRound(n, mode))
+RoundRefines == ~Ready \/ \A n \in -6..3, mode \in S!Modes : S!RoundOk(X, n, mode, ImplRound(n, mode))
 
 (* ---- checked_div: checked_div_rounded at the maximal scale, then normalize ---- *)
 RECURSIVE Norm(_,_)
